@@ -1,9 +1,224 @@
-import RulioModel.Loc
+import RulioModel.LocInv
+import RulioProofs.LocGuards
+import RulioProofs.LocState
+import RulioProofs.LocLife
 
-/-! # C10 — rule lifecycle (placeholder obligations until the Loc proofs land) -/
+open LocP
 
-/-- every method of the Location API that the model knows reports a disabled location -/
-theorem all_methods_check_enabled :
-    ["AddFact", "RemFact", "GetFact", "AddRule", "RemRule", "EnableRule", "RuleEnabled", "GetRule", "searchFacts", "searchRules",
-     "SearchRules", "ListRules", "GetParents", "SetParents", "Clear", "Delete", "StateSize", "Query", "RunJavascript"].all
-      (fun m => (guardsOf m).contains .enabled) = true := by decide
+/-! # C10 — rule lifecycle: only live, enabled rules fire (property theorems only)
+
+Over the Location model (`locX = guards of "X"; body`), whose guard table is tied to `location.go` by
+`guards_match_model` (Props/C19).  The pattern-index side of dispatch (C01) and reload (C06) are proved
+elsewhere; here: the `Enabled` gate, the disabled flag as a property fact, removal, re-adding, and the
+dispatch specification. -/
+
+/-- **In a disabled location every operation reports "disabled".**  Every method of the model carries the
+`Enabled` guard, and it is the first guard everywhere except in `AddFact` (where `CheckWrite` and the capacity
+test come first, as in the source).  On a location whose `!enabled` property is none of "", "yes", "true"
+each method returns an error and leaves the location unchanged; the error is "disabled" (for `AddFact`:
+whenever the write key is right and there is room). -/
+theorem disabled_location_reports (l : Loc) (c : Ctx) (now : Int) (hf : GuardFresh l.st now) (hd : Disabled l now) :
+    (∀ m ∈ modelMethods, Guard.enabled ∈ guardsOf m) ∧
+    (∀ m ∈ modelMethods, m ≠ "AddFact" → runGuards c now (guardsOf m) l = (l, .error "disabled")) ∧
+    (∃ e, runGuards c now (guardsOf "AddFact") l = (l, .error e) ∧
+      (¬ WriteDenied l c now → l.st.count < l.maxFacts → e = "disabled")) ∧
+    (∀ id, locRemFact c id now l = (l, .error "disabled")) ∧
+    (∀ id, locGetFact c id now l = (l, .error "disabled")) ∧
+    (∀ id r, locAddRule c id r now l = (l, .error "disabled")) ∧
+    (∀ id, locRemRule c id now l = (l, .error "disabled")) ∧
+    (∀ id b, locEnableRule c id b now l = (l, .error "disabled")) ∧
+    (∀ id, locRuleEnabled c id now l = (l, .error "disabled")) ∧
+    (∀ id, locGetRule c id now l = (l, .error "disabled")) ∧
+    (∀ p, locSearchFacts c p now l = (l, .error "disabled")) ∧
+    (∀ ev, locSearchRules c ev now l = (l, .error "disabled")) ∧
+    (locGetParents c now l = (l, .error "disabled")) ∧
+    (∀ ps, locSetParents c ps now l = (l, .error "disabled")) ∧
+    (locClear c now l = (l, .error "disabled")) ∧
+    (locStateSize c now l = (l, .error "disabled")) ∧
+    (∀ id f, ∃ e, locAddFact c id f now l = (l, .error e)) := by
+  have hv : guardVerdict c now l .enabled = .error "disabled" := verdict_disabled hd
+  have hhead : ∀ m ∈ modelMethods, m ≠ "AddFact" → (guardsOf m).head? = some Guard.enabled := by decide
+  have key : ∀ m ∈ modelMethods, m ≠ "AddFact" → guardsVerdict c now l (guardsOf m) = .error "disabled" := by
+    intro m hm hne
+    have := hhead m hm hne
+    cases hg : guardsOf m with
+    | nil => rw [hg] at this; cases this
+    | cons g gs =>
+      rw [hg] at this
+      simp only [List.head?_cons, Option.some.injEq] at this
+      subst this
+      exact guardsVerdict_head hv
+  have run : ∀ {α} (m : String) (body : LM α), m ∈ modelMethods → m ≠ "AddFact" →
+      (runGuards c now (guardsOf m) >>= fun _ => body) l = (l, .error "disabled") := by
+    intro α m body hm hne; rw [guarded_eq hf c _ body, key m hm hne]
+  have addFact : ∃ e, guardsVerdict c now l (guardsOf "AddFact") = .error e ∧
+      (¬ WriteDenied l c now → l.st.count < l.maxFacts → e = "disabled") := by
+    show ∃ e, guardsVerdict c now l [.checkWrite, .atCapacity, .enabled] = .error e ∧ _
+    by_cases hw : WriteDenied l c now
+    · obtain ⟨e, he⟩ := verdict_writeDenied hw
+      exact ⟨e, guardsVerdict_head he, fun h => absurd hw h⟩
+    · by_cases hc : l.maxFacts ≤ l.st.count
+      · refine ⟨"capacity", ?_, fun _ h => absurd hc (Nat.not_le.2 h)⟩
+        simp [guardsVerdict, verdict_writeOK hw, verdict_capacity, hc]
+      · refine ⟨"disabled", ?_, fun _ _ => rfl⟩
+        simp [guardsVerdict, verdict_writeOK hw, verdict_capacity, hc, hv]
+  refine ⟨by decide, fun m hm hne => by rw [runGuards_eq hf c, key m hm hne], ?_,
+    fun id => ?_, fun id => ?_, fun id r => ?_, fun id => ?_, fun id b => ?_, fun id => ?_, fun id => ?_,
+    fun p => ?_, fun ev => ?_, ?_, fun ps => ?_, ?_, ?_, fun id f => ?_⟩
+  · obtain ⟨e, he, h2⟩ := addFact
+    exact ⟨e, by rw [runGuards_eq hf c, he], h2⟩
+  · rw [locRemFact_split]; exact run "RemFact" _ (by decide) (by decide)
+  · rw [locGetFact_split]; exact run "GetFact" _ (by decide) (by decide)
+  · rw [locAddRule_split]; exact run "AddRule" _ (by decide) (by decide)
+  · rw [locRemRule_split]; exact run "RemRule" _ (by decide) (by decide)
+  · rw [locEnableRule_split]; exact run "EnableRule" _ (by decide) (by decide)
+  · rw [locRuleEnabled_split]; exact run "RuleEnabled" _ (by decide) (by decide)
+  · rw [locGetRule_split]; exact run "GetRule" _ (by decide) (by decide)
+  · rw [locSearchFacts_split]; exact run "searchFacts" _ (by decide) (by decide)
+  · rw [locSearchRules_split]; exact run "searchRules" _ (by decide) (by decide)
+  · rw [locGetParents_split]; exact run "GetParents" _ (by decide) (by decide)
+  · rw [locSetParents_split]; exact run "SetParents" _ (by decide) (by decide)
+  · rw [locClear_split]; exact run "Clear" _ (by decide) (by decide)
+  · rw [locStateSize_split]; exact run "StateSize" _ (by decide) (by decide)
+  · obtain ⟨e, he, _⟩ := addFact
+    exact ⟨e, by rw [locAddFact_split, guarded_eq hf c _ _, he]⟩
+
+/-- **The disabled flag is a property fact.**  A successful `EnableRule id false` stores exactly
+`{id, !disabled: true, deleteWith: [id]}` under `!id.disabled` in memory and storage (every entry under that id);
+a successful `EnableRule id true` leaves no fact under `!id.disabled`; `RuleEnabled` reads that fact: it
+answers the negation of `ruleDisabled` (the predicate the dispatch specification filters with). -/
+theorem flag_is_property_fact (c : Ctx) (id : String) (now : Int) (l l' : Loc) :
+    (locEnableRule c id false now l = (l', .ok ()) →
+      amGet l'.st.facts (genPropId id "disabled") = some (flagFact id) ∧
+      amGet l'.st.store (genPropId id "disabled") = some (.obj (flagFact id)) ∧
+      (∀ p ∈ l'.st.facts, p.1 = genPropId id "disabled" → p.2 = flagFact id) ∧
+      ruleDisabled l'.st.facts id now = true) ∧
+    (locEnableRule c id true now l = (l', .ok ()) →
+      amGet l'.st.facts (genPropId id "disabled") = none ∧ ruleDisabled l'.st.facts id now = false) ∧
+    (GuardFresh l.st now → FreshAt l.st (genPropId id "disabled") now →
+      ∀ b, locRuleEnabled c id now l = (l', .ok b) → l' = l ∧ b = !ruleDisabled l.st.facts id now) := by
+  refine ⟨fun h => ?_, fun h => ?_, fun hf hfl b h => ?_⟩
+  · rw [locEnableRule_split] at h
+    obtain ⟨l1, _, hb⟩ := guarded_ok h
+    simp only [Body.enableRule, Bool.false_eq_true, if_false, bind, LM.bind] at hb
+    cases hs : setProp id "disabled" (.bool true) now l1 with
+    | mk l2 r =>
+      rw [hs] at hb
+      cases r with
+      | error e => cases hb
+      | ok r =>
+        simp only [pure, LM.pure, Prod.mk.injEq] at hb
+        obtain ⟨hl, _⟩ := hb
+        subst hl
+        obtain ⟨_, hfacts, hstore⟩ := setProp_disabled_ok hs
+        have hget : amGet l2.st.facts (genPropId id "disabled") = some (flagFact id) := by
+          rw [hfacts, amGet_amSet_self]
+        refine ⟨hget, by rw [hstore, amGet_amSet_self], fun p hp hk => ?_, ?_⟩
+        · rw [hfacts] at hp; exact amSet_entries _ _ _ p hp hk
+        · simp only [ruleDisabled, hget, unexpired]
+          have : checkExpiration (flagFact id) now = .ok false := by
+            simp [checkExpiration, flagFact, Obj.get?, lookupKey]
+          rw [this]; rfl
+  · rw [locEnableRule_split] at h
+    obtain ⟨l1, _, hb⟩ := guarded_ok h
+    simp only [Body.enableRule, if_true, bind, LM.bind] at hb
+    cases hs : remProp id "disabled" now l1 with
+    | mk l2 r =>
+      rw [hs] at hb
+      cases r with
+      | error e => cases hb
+      | ok r =>
+        simp only [pure, LM.pure, Prod.mk.injEq] at hb
+        obtain ⟨hl, _⟩ := hb
+        subst hl
+        obtain ⟨_, _, habs⟩ := stRem_ok (show stRem (genPropId id "disabled") now l1 = (l2, .ok r) from hs)
+        exact ⟨habs, by simp [ruleDisabled, habs]⟩
+  · rw [locRuleEnabled_split, guarded_eq hf c] at h
+    obtain ⟨r, hr, hb⟩ := ruleEnabled_body (id := id) hfl
+    split at h
+    · rw [hr] at h
+      simp only [Prod.mk.injEq] at h
+      exact ⟨h.1.symm, hb b h.2⟩
+    · cases h
+
+/-- **The flag disappears with the rule.**  After a successful `RemRule id` neither the rule nor the flag
+`!id.disabled` is in memory, and if the flag was stored it is gone from storage too.  (`RemRule` removes the
+flag explicitly; the flag also names `id` in `deleteWith`, see `flagFact`.)  `FreshAt`: the flag fact is not
+expired — flags are written without an expiry. -/
+theorem flag_dies_with_rule (c : Ctx) (id : String) (now : Int) (l l' : Loc) (r : String)
+    (hf : GuardFresh l.st now) (hfl : FreshAt l.st (genPropId id "disabled") now)
+    (h : locRemRule c id now l = (l', .ok r)) :
+    amGet l'.st.facts (genPropId id "disabled") = none ∧ amGet l'.st.facts id = none ∧
+    (amGet l.st.facts (genPropId id "disabled") ≠ none → amGet l'.st.store (genPropId id "disabled") = none) ∧
+    ruleDisabled l'.st.facts id now = false ∧
+    deleteWithOf (flagFact id) = [id] := by
+  rw [locRemRule_split, guarded_eq hf c] at h
+  split at h
+  · obtain ⟨h1, h2, hk⟩ := remRule_body_ok hfl h
+    refine ⟨h1, h2, fun hne => ?_, by simp [ruleDisabled, h1], by simp [deleteWithOf, flagFact, Obj.get?, lookupKey]⟩
+    cases hg : amGet l.st.facts (genPropId id "disabled") with
+    | none => exact absurd hg hne
+    | some f => exact hk.gone hg h1
+  · cases h
+
+/-- **Re-adding under the same id replaces the old rule entirely.**  Whatever `AddRule id r1` left behind, a
+successful `AddRule id r2` leaves, under the returned id (= `id` unless empty), the prepared wrapper of `r2` and
+nothing else: it is what memory and storage answer, and every entry under that id equals it. -/
+theorem readd_replaces (c : Ctx) (id : String) (r1 r2 : Obj) (t1 t2 : Int) (l0 l2 : Loc) (id2 : String)
+    (h : locAddRule c id r2 t2 (locAddRule c id r1 t1 l0).1 = (l2, .ok id2)) :
+    (id ≠ "" → id2 = id) ∧
+    ∃ w m x' fresh, ruleWrapper r2 t2 = .ok w ∧ prepareFact id fresh w t2 = .ok (id2, m, x') ∧
+      amGet l2.st.facts id2 = some (storedForm l2.st.kind m) ∧
+      amGet l2.st.store id2 = some (.obj (storedForm l2.st.kind m)) ∧
+      (∀ p ∈ l2.st.facts, p.1 = id2 → p.2 = storedForm l2.st.kind m) ∧
+      (∀ p ∈ l2.st.store, p.1 = id2 → p.2 = .obj (storedForm l2.st.kind m)) := by
+  rw [locAddRule_split] at h
+  obtain ⟨l1, _, hb⟩ := guarded_ok h
+  obtain ⟨w, m, x', hw, hp, hfacts, hstore, hid, hkind⟩ := addRule_body_ok hb
+  rw [hkind]
+  refine ⟨hid, w, m, x', l1.st.freshId, hw, hp, by rw [hfacts, amGet_amSet_self], by rw [hstore, amGet_amSet_self],
+    fun p hp' hk => ?_, fun p hp' hk => ?_⟩
+  · rw [hfacts] at hp'; exact amSet_entries _ _ _ p hp' hk
+  · rw [hstore] at hp'; exact amSet_entries _ _ _ p hp' hk
+
+/-- **Only live, enabled rules fire** (specification side; the index side is C01's).  The dispatch specification
+for a location's own rules contains exactly the stored, unexpired, non-scheduled rules whose `when` matches the
+event, with the matcher's bindings: a rule that was removed (`amGet facts id = none`), has expired, or is
+scheduled is not dispatched; and the filter applied on top is exactly `ruleDisabled`, which is what
+`RuleEnabled` answers (`flag_is_property_fact`).
+Full statement (not proved here): the rules evaluated by `ProcessEvent` over every history of
+add / overwrite / remove / disable / enable / reload / toggles equal this filtered specification. -/
+theorem fires_iff_live_enabled_partial (facts : List (String × Obj)) (ev : Obj) (now : Int)
+    (out : List (String × List Bs)) (h : specDispatchLocal facts ev now = .ok out) :
+    (∀ id bss, (id, bss) ∈ out ↔ ∃ f pat, (id, f) ∈ facts ∧ unexpired f now = true ∧ whenOf f = some pat ∧
+        matchesJ (.obj pat) (.obj ev) = .ok bss ∧ bss ≠ []) ∧
+    (∀ id bss, (id, bss) ∈ out.filter (fun r => !ruleDisabled facts r.1 now) ↔
+        (id, bss) ∈ out ∧ ruleDisabled facts id now = false) ∧
+    (∀ id bss, (∀ f, (id, f) ∉ facts) → (id, bss) ∉ out) ∧
+    (∀ id, ruleDisabled facts id now = true → ∀ bss, (id, bss) ∉ out.filter (fun r => !ruleDisabled facts r.1 now)) := by
+  refine ⟨specDispatchLocal_mem h, fun id bss => by simp [List.mem_filter], fun id bss hno hmem => ?_,
+    fun id hd bss hmem => ?_⟩
+  · obtain ⟨f, _, hf, _⟩ := (specDispatchLocal_mem h id bss).1 hmem
+    exact hno f hf
+  · have := (List.mem_filter.1 hmem).2
+    simp [hd] at this
+
+/-! ## the hypotheses are satisfiable -/
+
+/-- a location switched off through its `!enabled` property, holding a rule `r1` and its disabled flag -/
+def c10Example : Loc :=
+  { name := "home",
+    st := { kind := .linear,
+            facts := [("!.enabled", [("id", .str ""), ("!enabled", .str "no"), ("deleteWith", .arr [.str ""])]),
+                      ("r1", [("rule", .obj [("when", .obj [("pattern", .obj [("wants", .str "?x")])]),
+                                             ("action", .obj [("code", .str "1")])])]),
+                      ("!r1.disabled", flagFact "r1")] } }
+
+example : Disabled c10Example 7 ∧ GuardFresh c10Example.st 7 := ⟨by decide, guardFresh_of_b (by decide)⟩
+example : locGetFact {} "r1" 7 c10Example = (c10Example, .error "disabled") :=
+  (disabled_location_reports c10Example {} 7 (guardFresh_of_b (by decide)) (by decide)).2.2.2.2.1 "r1"
+/-- the flag is read by `ruleDisabled`; the rule is live (stored, unexpired, with a `when`) but filtered -/
+example : ruleDisabled c10Example.st.facts "r1" 7 = true ∧ ruleDisabled c10Example.st.facts "r2" 7 = false ∧
+    FreshAt c10Example.st (genPropId "r1" "disabled") 7 := ⟨by decide, by decide, freshAt_of_b (by decide)⟩
+example : whenOf [("rule", .obj [("when", .obj [("pattern", .obj [("wants", .str "?x")])]),
+                                 ("action", .obj [("code", .str "1")])])] = some [("wants", .str "?x")] := by rfl
